@@ -211,8 +211,7 @@ fn run_part_once(prop: &str, key: &str, seed: u64, runs: u64, tier: Tier, cap_s:
       if let Some((idx, v, sc)) = out.violation {
         eprintln!("[{tag}] run {idx} violated: {} — {}", v.class, v.detail);
         let (v0, sc0) = (v.clone(), sc.clone());
-        // (GSIM_MIN_BUDGET_S: regression sweeps over the seeded changes only need the verdict)
-        let budget = Duration::from_secs(std::env::var("GSIM_MIN_BUDGET_S").ok().and_then(|s| s.parse().ok()).unwrap_or(if tier == Tier::Quick { 40 } else { 120 }));
+        let budget = Duration::from_secs(if tier == Tier::Quick { 40 } else { 120 });
         // (in a process of its own: a reduced scenario may make the library kill the process —
         // stack overflow, abort —, which must not take the report with it)
         let p0 = write_replay(prop, key, seed, idx, &v, &sc);
